@@ -24,5 +24,6 @@ def run(project, rep):
     rep.run(Z.z_r2_naive, project, rep)
     rep.run(T.t_r3, project, rep)
     rep.run(T.t_r4, project, rep)
+    rep.run(T.t_r4b_guards_constant, project, rep)
     rep.run(T.t_r5, project, rep)
     rep.run(Z.z_r3_writer_shape, project, rep)
